@@ -25,6 +25,7 @@ META = {
         "args and labels a dependency or the task function reads from Context are those of the message being processed by "
         "the callback task that runs it; set_result(id, r) carries the value produced for the message with that id. "
         "distinct_nontrivial = distinct terminal per-message logs."
+        " Failing dependencies: a dependency of message 0 raises (always / only at its first resolution) after a suspension point while message 1 enters processing; whatever is resolved for message 0 before, after or again still observes message 0, and an error result is stored under its id."
     ),
     "assumptions": [
         "the message a piece of dependency code belongs to is identified by the asyncio task running it (the callback task)",
@@ -62,7 +63,12 @@ class C06World(DepWorld):
         elif kind == "SAVE_B":
             i = ev[1]
             self.checked += 1
-            if self.msgs[i]["outcome"] == "return" and ev[2][2] != repr(f"R{i}"):
+            kinds = [e[0] for e in self.per[i]]
+            dep_failed = "OPENFAIL" in kinds and "START" not in kinds  # resolution failed: an error result is due
+            if dep_failed:
+                if not ev[2][0]:
+                    self.flag("C06:result-bound-to-wrong-id", f"result stored under m{i} is {ev[2]} although its dependencies could not be resolved")
+            elif self.msgs[i]["outcome"] == "return" and ev[2][2] != repr(f"R{i}"):
                 self.flag("C06:result-bound-to-wrong-id", f"result stored under m{i} is {ev[2]} (expected value R{i})")
 
     def _uncached_path(self, name: str) -> bool:
@@ -140,6 +146,17 @@ def scenarios(tier: str) -> List[Dict[str, Any]]:
                 amsgs = [dict(m, ack="async", gates=["ack"]) for m in msgs]
                 out.append({"A": 3, "P": 1, "N": None, "stream": "finite", "stop": False, "level": 0, "deps": g, "msgs": amsgs,
                             "ack_type": "when_received", "mws": [{"hooks": {"pre_execute": "gated", "post_execute": "gated"}}]})
+    # a dependency of message 0 fails (always / only the first time) after a suspension point while message 1
+    # enters processing: whatever is resolved for message 0 before, after or instead still sees message 0
+    for order in (("p", "f"), ("f", "p")):
+        for k in (KINDS if tier == "thorough" else KINDS[::3]):
+            for mode in ("fail", "fail_once"):
+                for tc in (True, False):
+                    g = {"roots": list(order), "task_ctx": tc,
+                         "nodes": {"f": {"style": "aplain", "children": ["c"], "gate": True, "cache": True, mode: [0]},
+                                   "c": _node(("plain", True), [], True), "p": _node(k, [], True)}}
+                    msgs = [{"task": "dep", "body": "immediate", "value": f"R{i}", "labels": {"who": f"w{i}"}} for i in range(2)]
+                    out.append({"A": 3, "P": 1, "N": None, "stream": "finite", "stop": False, "level": 0, "deps": g, "msgs": msgs})
     # saturated worker with a filled prefetch queue: two executions end in the same loop iteration and the next
     # two messages are started back to back (each must still see its own message)
     g = {"roots": ["p"], "task_ctx": True, "nodes": {"p": _node(("plain", True), [], True)}}
